@@ -639,3 +639,104 @@ def contracts():
     from contracts import c02 as _c02
     C += _c02.all_set_contracts(["C01/"])
     return C
+
+
+# ======================================================================================
+# Constructors: every declared constraint argument reaches the slot that `_validate` reads, and
+# the default is validated last (so a constructor succeeds iff the default satisfies the
+# constraints in force)
+# ======================================================================================
+def constructor_contract(cls, kwargs_slots, validate_owner, extra_kwargs=None, slot_rule=None, qual_mod=MOD_P, plain_default=False):
+    """kwargs_slots: {constructor keyword: slot name}."""
+    def configure(I):
+        I.getattribute_hook = True
+
+        def validate(I, st, fv, args, kwargs, ctx):
+            selfv = fv.data.get("self")
+            h = st.heap[selfv.oid].fields
+            snap = {s: h.get(s) for s in list(kwargs_slots.values()) + ["allow_None", "default"]}
+            st.ghost["validate_calls"] = st.ghost.get("validate_calls", []) + [(args[0], snap)]
+            q = st.fork()
+            return [(st, Conc(None)), (q, Raise("ValueError", origin="_validate"))]
+        I.contracts["%s._validate" % validate_owner] = validate
+
+    def setup(I, st):
+        U = I.U
+        self = I.alloc_obj(st, cls, lazy=False, label="self")
+        kw = {}
+        for k in list(kwargs_slots) + ["default", "allow_None"]:
+            v = Sym(U.fresh("arg_" + k))
+            st.pc.append(v.t != U.UNDEF)
+            kw[k] = v
+        st.pc.append(S.is_bool(I, kw["allow_None"].t))
+        if plain_default:
+            # dynamic (callable) defaults are generators, not plain values: out of scope
+            st.pc.append(z3.Not(vm.is_callable(kw["default"].t)))
+        if extra_kwargs:
+            for k, mk in extra_kwargs.items():
+                kw[k] = mk(I, st)
+        fv = I.bound_method(self, I.src.find_method(cls, "__init__"))
+        return fv, [], kw, {"self": self, "kw": kw, "symbols": {k: v.t for k, v in kw.items() if isinstance(v, Sym)}}
+
+    def post(I, info, st, oc):
+        U = I.U
+        kw = info["kw"]
+        calls = st.ghost.get("validate_calls", [])
+        if isinstance(oc, Raise):
+            return [("constructor fails only because the default was rejected (or a documented argument check)",
+                     z3.BoolVal(oc.origin == "_validate" or oc.cls in ("ValueError", "TypeError")))]
+        f = st.heap[info["self"].oid].fields
+        out = []
+        for k, slot in kwargs_slots.items():
+            want = slot_rule(I, k, kw, f) if slot_rule and slot_rule(I, k, kw, f) is not None else kw[k].t
+            out.append(("argument %s reaches slot %s" % (k, slot), I.term(f[slot]) == want if slot in f else z3.BoolVal(False)))
+        d = kw["default"].t
+        out.append(("default stored as given", I.term(f["default"]) == d if "default" in f else z3.BoolVal(False)))
+        out.append(("allow_None: True if the default is None, else as declared",
+                    I.term(f["allow_None"]) == z3.If(d == U.NONE, U.TRUE, kw["allow_None"].t) if "allow_None" in f else z3.BoolVal(False)))
+        out.append(("the default is validated", z3.BoolVal(len(calls) >= 1)))
+        if calls:
+            val, snap = calls[-1]
+            out.append(("… the value validated last is the stored default", I.term(val) == I.term(f["default"])))
+            same = [I.term(snap[s]) == I.term(f[s]) if snap.get(s) is not None and s in f else z3.BoolVal(False)
+                    for s in list(kwargs_slots.values()) + ["allow_None"]]
+            out.append(("… against the constraints finally in force (validation is the last step)", z3.And(same)))
+        return out
+    return FunctionContract("%s:%s.__init__" % (qual_mod, cls), PROP, setup, post, configure=configure, name="%s.__init__" % cls)
+
+
+def tuple_length_rule(I, k, kw, f):
+    if k != "length":
+        return None
+    d = kw["default"].t
+    # a non-empty default fixes the length
+    return z3.If(vm.truthy(d), _int_term(I, vm.slen(d)), kw["length"].t)
+
+
+def _int_term(I, n):
+    c = z3.Const("len_as_int", vm.V)
+    return c
+
+
+def constructor_contracts():
+    num = {"bounds": "bounds", "inclusive_bounds": "inclusive_bounds", "step": "step", "softbounds": "softbounds"}
+    C = [constructor_contract("Number", num, "Number", plain_default=True),
+         constructor_contract("Integer", num, "Number", plain_default=True),
+         constructor_contract("Date", num, "Number", plain_default=True),
+         constructor_contract("CalendarDate", num, "Number", plain_default=True),
+         constructor_contract("Boolean", {}, "Boolean"),
+         constructor_contract("Range", num, "Range"),
+         constructor_contract("Callable", {}, "Callable"),
+         constructor_contract("Color", {"allow_named": "allow_named"}, "Color"),
+         constructor_contract("Bytes", {"regex": "regex"}, "Bytes"),
+         constructor_contract("String", {"regex": "regex"}, "String", qual_mod=MOD_Z),
+         constructor_contract("ClassSelector", {"class_": "class_", "is_instance": "is_instance"}, "ClassSelector"),
+         ]
+    return C
+
+
+_c01_validators = contracts
+
+
+def contracts():
+    return _c01_validators() + constructor_contracts()
